@@ -6,6 +6,7 @@ import (
 	"fmt"
 	"net/http"
 	"net/http/httptest"
+	"os"
 	"strings"
 	"sync"
 	"testing"
@@ -200,6 +201,156 @@ func TestVerifC14(t *testing.T) {
 		})
 	}
 
+	// ---- start-up: a new DNSFilter over a data directory that already holds
+	// the list.  New loads it (read only); the first periodic refresh decides by
+	// the file's age and replaces it (atomically), touches it, or leaves it alone.
+	for i, sc := range []struct {
+		name    string
+		age     time.Duration
+		ans     func(old string) answer
+		replace bool
+		fails   bool
+		limit   int // >= 0: the refresh runs under this file size limit
+		cls     []string
+	}{
+		{"start-up-due-changed", 3 * time.Hour, func(string) answer { return answer{body: "||fresh1.example^\n||fresh2.example^\n"} }, true, false, -1, []string{"updated"}},
+		{"start-up-due-unchanged", 3 * time.Hour, func(old string) answer { return answer{body: old} }, false, false, -1, []string{"unchanged-cleanup"}},
+		{"start-up-not-due", time.Minute, func(string) answer { return answer{body: "||never-fetched.example^\n"} }, false, false, -1, []string{"not-due"}},
+		{"start-up-due-unreachable", 3 * time.Hour, func(string) answer { return answer{status: 502} }, false, true, -1, []string{"failed-download", "fail-status"}},
+		{"start-up-due-cut", 3 * time.Hour, func(string) answer {
+			b := c14List(vfNewRand(uint64(5)), 400, 30, "su")
+			return answer{body: b, cutAt: len(b) / 2}
+		}, false, true, -1, []string{"failed-download", "fail-connection-cut", "refresh-fails-after-first-rule"}},
+		{"start-up-due-disk-full", 3 * time.Hour, func(string) answer { return answer{body: c14List(vfNewRand(uint64(6)), 3000, 40, "sf")} }, false, true, 1000, []string{"failed-save"}},
+	} {
+		d0, f0 := newFilter()
+		dst := f0.Path(d0.conf.DataDir)
+		old := "||stored-before-restart.example^\n||second.example^\n"
+		serve(path(f0), answer{body: old})
+		if ok, err := d0.update(f0); !ok || err != nil {
+			t.Fatalf("%s: preparing the stored list: %v %v", sc.name, ok, err)
+		}
+		then := time.Now().Add(-sc.age)
+		if err := os.Chtimes(dst, then, then); err != nil {
+			t.Fatal(err)
+		}
+		a := sc.ans(old)
+		serve(path(f0), a)
+		if i%2 == 0 {
+			s.TmpInDstDir()
+		} else {
+			s.TmpShared()
+		}
+		cls := append([]string{"filtering", "dst-present", "bytes", "upgrade-on-start", "refreshFiltersIntl"}, sc.cls...)
+		s.Case(sc.name, dst, nil, cls, func(c *verifc14.Case) {
+			run := func() (bool, error) {
+				d1, err := New(&Config{
+					DataDir:                    d0.conf.DataDir,
+					HTTPClient:                 &http.Client{Timeout: 5 * time.Minute},
+					FiltersUpdateIntervalHours: 1,
+					Filters:                    []FilterYAML{{Enabled: true, URL: f0.URL, Name: "verif", Filter: Filter{ID: f0.ID}}},
+				}, nil)
+				if err != nil {
+					return false, err
+				}
+				defer d1.Close()
+				if got := d1.conf.Filters[0].RulesCount; got != 2 {
+					c.Fail("start-up: New loaded %d rules from the stored list, want 2", got)
+				}
+				d1.periodicallyRefreshFilters(5 * time.Second)
+				return sc.replace, nil
+			}
+			if sc.limit >= 0 {
+				c.SaveLimited("start-refresh-limited", uint64(sc.limit), func() error { _, err := run(); return err })
+				return
+			}
+			if sc.replace {
+				c.Want(c14Stored(a.body))
+			}
+			c.SaveB("start-refresh", sc.fails, run)
+		})
+	}
+	s.TmpInDstDir()
+
+	// ---- injected write failures (RLIMIT_FSIZE: the write is cut short, then
+	// EFBIG, as with a full disk): the list file must be byte-identical afterwards
+	for i, sc := range []struct {
+		name    string
+		present bool
+		size    int
+		limit   func(size int) uint64
+		shared  bool
+	}{
+		{"fail-write-first-absent", false, 200, func(int) uint64 { return 0 }, false},
+		{"fail-write-first-present", true, 200, func(int) uint64 { return 0 }, false},
+		{"fail-write-mid-present", true, 30000, func(sz int) uint64 { return uint64(sz / 2) }, false},
+		{"fail-write-last-byte-present", true, 2000, func(sz int) uint64 { return uint64(sz - 1) }, true},
+		{"fail-write-mid-absent", false, 30000, func(sz int) uint64 { return uint64(sz / 3) }, true},
+	} {
+		d, f := newFilter()
+		dst := f.Path(d.conf.DataDir)
+		cls := []string{"filtering", "failed-save"}
+		if sc.shared {
+			s.TmpShared()
+			cls = append(cls, "tmp-in-tmpdir")
+		} else {
+			s.TmpInDstDir()
+			cls = append(cls, "tmp-in-dstdir")
+		}
+		if sc.present {
+			serve(path(f), answer{body: "||before-the-failure.example^\n"})
+			if ok, err := d.update(f); !ok || err != nil {
+				t.Fatalf("%s: preparing the stored list: %v %v", sc.name, ok, err)
+			}
+			cls = append(cls, "dst-present")
+		} else {
+			cls = append(cls, "dst-absent")
+		}
+		body := c14List(vfNewRand(uint64(300+i)), sc.size, 50, fmt.Sprintf("w%d", i))
+		serve(path(f), answer{body: body})
+		s.Case(sc.name, dst, nil, cls, func(c *verifc14.Case) {
+			stored := len(c14Stored(body))
+			lim := sc.limit(stored)
+			c.Info["limit"], c.Info["size"] = lim, stored
+			if err := c.SaveLimited("update-limited", lim, func() error { _, err := d.update(f); return err }); err == nil {
+				c.Fail("update storing %d bytes under a file size limit of %d reported success", stored, lim)
+			}
+			// the next refresh, with room again, stores the list
+			upd(c, d, f, "update-after-failure", false)
+		})
+	}
+	s.TmpInDstDir()
+
+	// ---- concurrent updates of ONE list file (a URL change through the HTTP API
+	// downloads under its own lock while the periodic refresh holds refreshLock):
+	// every writer has a pending file of its own, only complete lists may appear
+	{
+		d, f := newFilter()
+		dst := f.Path(d.conf.DataDir)
+		serve(path(f), answer{body: "||before-the-race.example^\n"})
+		if ok, err := d.update(f); !ok || err != nil {
+			t.Fatalf("concurrent-updates: preparing the stored list: %v %v", ok, err)
+		}
+		s.Case("concurrent-updates", dst, nil, []string{"filtering", "dst-present", "tmp-in-dstdir", "updated"}, func(c *verifc14.Case) {
+			for k := 0; k < s.Scale(3, 10); k++ {
+				var jobs []verifc14.Job
+				for w := 0; w < 3; w++ {
+					fw := &FilterYAML{URL: fmt.Sprintf("%s-%d-%d", f.URL, k, w), Name: "verif", Filter: Filter{ID: f.ID}}
+					body := c14List(vfNewRand(uint64(400+10*k+w)), 2000+20000*w, 40+30*w, fmt.Sprintf("r%d-%d", k, w))
+					serve(path(fw), answer{body: body})
+					jobs = append(jobs, verifc14.Job{Want: c14Stored(body), F: func() error {
+						ok, err := d.update(fw)
+						if err == nil && !ok {
+							err = fmt.Errorf("update of a changed list reported no change")
+						}
+						return err
+					}})
+				}
+				c.SaveConcurrent(fmt.Sprintf("triple-%d", k), jobs)
+			}
+		})
+	}
+
 	// ---- sizes, each: download, changed refresh, failed refresh, unchanged refresh
 	sizes := []int{1 << 10, 64 << 10, 1 << 20}
 	if s.Tier == "thorough" {
@@ -252,7 +403,14 @@ func TestVerifC14(t *testing.T) {
 					sz, rl = r.Intn(s.Scale(300000, 1500000)), 60+r.Intn(800)
 				}
 				body := c14List(r.Fork(uint64(j)), sz, rl, fmt.Sprint(j))
-				switch r.Intn(6) {
+				switch r.Intn(7) {
+				case 6:
+					if stored := len(c14Stored(body)); stored > 0 {
+						serve(path(f), answer{body: body})
+						lim := uint64(r.Intn(stored))
+						c.SaveLimited(fmt.Sprintf("%d-limited(%d of %d)", j, lim, stored), lim, func() error { _, err := d.update(f); return err })
+						c.Class("failed-save")
+					}
 				case 0:
 					serve(path(f), answer{status: 503})
 					upd(c, d, f, fmt.Sprintf("%d-status", j), true)
